@@ -12,6 +12,7 @@ import rules_ftype
 import rules_canon
 import rules_storage
 import rules_dispatch
+import rules_level
 
 
 class Context:
@@ -62,9 +63,9 @@ STRUCTURAL = ("exact static rule check over all paths of the enumerated function
 PROPS = {
     "C01": {
         "title": "Canonicity: edges are equal exactly when they denote the same function",
-        "rules": [on_program(rules_canon.rule_canon), on_program(rules_canon.rule_hash), on_program(rules_canon.rule_equals), callers_for("C01")],
+        "rules": [on_program(rules_canon.rule_canon), on_program(rules_canon.rule_hash), on_program(rules_canon.rule_equals), callers_for("C01"), on_program(rules_level.rule_index_kind)],
         "explanation": STRUCTURAL + ". C01: reduce-then-lookup-before-insert on every path of node creation (normalise, transparent/identity/redundant elimination, sort, hash, find, insert — in order), "
-                       "hash recipe agreement between the unpacked and the packed form in all four variants, edge equality reading forest id + node + edge value, and who may write packed nodes / the unique table.",
+                       "hash recipe agreement between the unpacked and the packed form in all four variants, edge equality reading forest id + node + edge value, who may write packed nodes / the unique table, and level/variable index kinds (the level-size bound and the unique-table slot of a node are taken for the variable at its level).",
         "assumptions": ["that the reduction conditions and the EV normal forms are the right ones is not decided (value semantics)", "float tolerance effects in EV* are not decided"],
         "technique": "ordered must-pass-through rules over the clang CFG of forest::createReducedNode; sibling comparison of the two hash functions per variant; who-may-call tables",
         "level_text": "exact static rule check over all paths of forest::createReducedNode and the two hash functions plus the caller tables; decides the structural clauses canonicity rests on, not the normal forms themselves",
@@ -85,23 +86,26 @@ PROPS = {
     },
     "C04": {
         "title": "Set algebra (union, intersection, difference, complement, cross) is pointwise",
-        "rules": [rules_ftype.rule_mix_sets, callers_for("C04")],
+        "rules": [rules_ftype.rule_mix_sets, callers_for("C04"), on_program(rules_level.rule_next_level), on_program(rules_level.rule_terminal_type)],
         "explanation": STRUCTURAL + ". C04: cross-forest clause (every handle in union/intersection/difference/complement/cross/copy is used only with its own forest, for every assignment of operand and result forests; "
-                       "what is returned, stored or chained in the result forest was produced there) and immutability clause (operations cannot reach the primitives that rewrite packed nodes).",
-        "assumptions": ["that the recursion computes OR/AND/AND-NOT/NOT/cross is not decided", "terminal handles are treated as forest independent (value translation between range types is not checked)",
+                       "what is returned, stored or chained in the result forest was produced there), immutability clause (operations cannot reach the primitives that rewrite packed nodes), and the level discipline of the level-synchronised recursion "
+                       "(a set-style next level k-1 is computed only from a level that is non-negative on every path; relation levels go through MXD_levels::downLevel — the cross-forest copy broke this when entered at a primed level, defect D11).",
+        "assumptions": ["that the recursion computes OR/AND/AND-NOT/NOT/cross is not decided", "the sign of level parameters and loop counters is the caller's contract (listed, not decided)", "terminal handles are treated as forest independent (value translation between range types is not checked)",
                         "handles read from compute-table results are untyped until linked with a forest"],
-        "technique": "forest-indexed typing of node handles (path-sensitive dataflow over clang CFGs, symbols = forest members of the operation class); who-may-call tables",
-        "level_text": "exact static rule check over every method of the set-algebra operation classes; decides the cross-forest and immutability clauses",
+        "technique": "forest-indexed typing of node handles (path-sensitive dataflow over clang CFGs, symbols = forest members of the operation class); who-may-call tables; sign typing of level locals with guard-edge dominance for conditionally normalised levels",
+        "level_text": "exact static rule check over every method of the set-algebra operation classes; decides the cross-forest, immutability and level-sign clauses",
         "design_ref": "DESIGN.md §2.2, §2.5, §3 C04",
         "level_note": "trusts clang 14 CFGs and the role table of compute() parameters in tool/msa/ftype.cc",
     },
     "C05": {
         "title": "Element-wise arithmetic, comparison, min/max and user-defined maps are pointwise",
-        "rules": [on_program(rules_guard.rule_div_zero), on_program(rules_guard.rule_sub_infinity), on_program(rules_sibling.rule_mirror_simplify), rules_ftype.rule_mix_arith],
+        "rules": [on_program(rules_guard.rule_div_zero), on_program(rules_guard.rule_sub_infinity), on_program(rules_sibling.rule_mirror_simplify), rules_ftype.rule_mix_arith,
+                  on_program(rules_level.rule_terminal_type), on_program(rules_level.rule_next_level)],
         "explanation": STRUCTURAL + ". C05: partiality clause (every `/` and `%` on operand values is dominated by a zero test throwing DIVIDE_BY_ZERO; x - infinity throws SUBTRACT_INFINITY), "
-                       "mirror clause (for a commutative operation the two shortcut predicates simplifiesToFirstArg/SecondArg are mirror images), cross-forest clause (handles are used only with their own forest).",
+                       "mirror clause (for a commutative operation the two shortcut predicates simplifiesToFirstArg/SecondArg are mirror images), cross-forest clause (handles are used only with their own forest), "
+                       "range clause (a terminal built from a truth value carries the result forest's terminal type unless the operation is all-BOOLEAN) and the level discipline of the recursion (set-style next level only from non-negative levels).",
         "assumptions": ["pointwise values and the correctness of the shortcut predicates themselves are not decided", "only policies with commutes()==true are subject to the mirror law"],
-        "technique": "must-check dominance over clang CFGs; mirror-image comparison of twin predicates after operand renaming; forest-indexed handle typing",
+        "technique": "must-check dominance over clang CFGs; mirror-image comparison of twin predicates after operand renaming; forest-indexed handle typing; constructor-signature rule for terminals; sign typing of level locals",
         "level_text": "exact static rule check over every instantiation of the arithmetic policies in operations/arith_*.cc; decides the partiality, mirror and cross-forest clauses, not the pointwise values",
         "design_ref": "DESIGN.md §2.4, §2.2, §3 C05",
         "level_note": "trusts clang 14 CFGs; the mirror comparison is textual on clang-printed conditions/returns after renaming the operand parameters by position",
@@ -177,11 +181,12 @@ PROPS = {
     "C13": {
         "title": "Variable reordering preserves every function and every held edge",
         "rules": [callers_for("C13"), on_program(rules_layer.rule_cache_before_rewrite), on_program(rules_layer.rule_exchange_once),
-                  on_program(rules_sibling.rule_swap_loops), rules_own.rule_own_swap],
+                  on_program(rules_sibling.rule_swap_loops), rules_own.rule_own_swap, on_program(rules_level.rule_index_kind)],
         "explanation": STRUCTURAL + ". C13: in-place rewrite/relabel/handle-swap primitives are reachable only from the adjacent-swap routines; every root of the reordering "
-                       "call cone clears the compute tables first; a swap routine that relabels levels exchanges the variable order exactly once.",
+                       "call cone clears the compute tables first; a swap routine that relabels levels exchanges the variable order exactly once; level numbers and variable numbers are kept apart "
+                       "(what getVarByLevel returns goes only where a variable is expected, what getLevelByVar/getNodeLevel/getLevel return only where a level is expected — they differ exactly after a reordering).",
         "assumptions": ["function preservation under the eight schedules is not decided", "swapAdjacentVariables called directly by a user (documented driver-only primitive) is outside the cone roots"],
-        "technique": "who-may-call tables over the resolved call graph; CFG dominance (cache clear before first reordering call); exactly-once path rule",
+        "technique": "who-may-call tables over the resolved call graph; CFG dominance (cache clear before first reordering call); exactly-once path rule; index-kind typing (level vs variable) of int locals and argument positions",
         "level_text": "exact static rule check over the whole-program call graph and the CFGs of the reordering entry points; decides the invalidation/rewrite/relabel disciplines that reordering correctness needs, not function preservation itself",
         "design_ref": "DESIGN.md §2.5, §3 C13",
         "level_note": "trusts clang 14 call resolution (virtual calls expanded to all overriders) and the caller table in lib/rules_layer.py",
